@@ -235,25 +235,25 @@ CHECKS = {
         kani=[dict(crate="nexrad-decode", files=["wire_layout.rs", "drd.rs", "c02.rs"], harnesses=
             layout_h(["DrdHeader", "DataBlockId", "VolumeDataBlock", "ElevationDataBlock", "RadialDataBlock", "GenericDataBlockHeader"]) + [
             dict(name="c02_generic_block_new_len", what="GenericDataBlock::new: gate buffer length == gates x (word_size/8) for all u16 x u8"),
-            dict(name="drd_marker_vol", bounded="1 block, one symbolic marker byte", tier="thorough", what="VOL block routed to the volume slot only"),
-            dict(name="drd_marker_ref", bounded="1 block, one symbolic marker byte", tier="thorough", what="REF routed to the reflectivity slot only, marker in header and gate byte"),
-            dict(name="drd_marker_vel", bounded="1 block, one symbolic marker byte", tier="thorough", what="VEL routing"),
-            dict(name="drd_marker_sw", bounded="1 block, one symbolic marker byte", tier="thorough", what="SW routing"),
-            dict(name="drd_marker_zdr", bounded="1 block, one symbolic marker byte", tier="thorough", what="ZDR routing"),
-            dict(name="drd_marker_phi", bounded="1 block, one symbolic marker byte", tier="thorough", what="PHI routing"),
-            dict(name="drd_marker_rho", bounded="1 block, one symbolic marker byte", tier="thorough", what="RHO routing"),
-            dict(name="drd_marker_cfp", bounded="1 block, one symbolic marker byte", tier="thorough", what="CFP routing"),
-            dict(name="drd_route_vol", bounded="1 block, selected bytes symbolic", tier="thorough", what="VOL block delivered as volume block, others absent, reader ends after block"),
-            dict(name="drd_route_elv", bounded="1 block, selected bytes symbolic", what="ELV routing"),
-            dict(name="drd_route_rad", bounded="1 block, selected bytes symbolic", what="RAD routing"),
-            dict(name="drd_route_ref", bounded="1 block, 2 gates x 8 bit", tier="thorough", what="REF routing, gate bytes intact"),
-            dict(name="drd_route_vel", bounded="1 block, gates<=2, word 8/16", tier="thorough", what="VEL routing"),
-            dict(name="drd_route_sw", bounded="1 block, gates<=2, word 8/16", tier="thorough", what="SW routing"),
-            dict(name="drd_route_zdr", bounded="1 block, gates<=2, word 8/16", tier="thorough", what="ZDR routing"),
-            dict(name="drd_route_phi", bounded="1 block, gates<=2, word 8/16", tier="thorough", what="PHI routing"),
-            dict(name="drd_route_rho", bounded="1 block, gates<=2, word 8/16", tier="thorough", what="RHO routing"),
-            dict(name="drd_route_cfp", bounded="1 block, gates<=2, word 8/16", tier="thorough", what="CFP routing"),
-            dict(name="drd_two_blocks_permuted_gap", bounded="2 blocks, permuted pointers, 4-byte gap", tier="thorough", what="pointer order != layout order, gap between blocks"),
+            dict(name="drd_marker_vol", witness=True, bounded="1 block, one symbolic marker byte", tier="thorough", what="VOL block routed to the volume slot only"),
+            dict(name="drd_marker_ref", witness=True, bounded="1 block, one symbolic marker byte", tier="thorough", what="REF routed to the reflectivity slot only, marker in header and gate byte"),
+            dict(name="drd_marker_vel", witness=True, bounded="1 block, one symbolic marker byte", tier="thorough", what="VEL routing"),
+            dict(name="drd_marker_sw", witness=True, bounded="1 block, one symbolic marker byte", tier="thorough", what="SW routing"),
+            dict(name="drd_marker_zdr", witness=True, bounded="1 block, one symbolic marker byte", tier="thorough", what="ZDR routing"),
+            dict(name="drd_marker_phi", witness=True, bounded="1 block, one symbolic marker byte", tier="thorough", what="PHI routing"),
+            dict(name="drd_marker_rho", witness=True, bounded="1 block, one symbolic marker byte", tier="thorough", what="RHO routing"),
+            dict(name="drd_marker_cfp", witness=True, bounded="1 block, one symbolic marker byte", tier="thorough", what="CFP routing"),
+            dict(name="drd_route_vol", witness=True, bounded="1 block, selected bytes symbolic", tier="thorough", what="VOL block delivered as volume block, others absent, reader ends after block"),
+            dict(name="drd_route_elv", witness=True, bounded="1 block, selected bytes symbolic", what="ELV routing"),
+            dict(name="drd_route_rad", witness=True, bounded="1 block, selected bytes symbolic", what="RAD routing"),
+            dict(name="drd_route_ref", witness=True, bounded="1 block, 2 gates x 8 bit", tier="thorough", what="REF routing, gate bytes intact"),
+            dict(name="drd_route_vel", witness=True, bounded="1 block, gates<=2, word 8/16", tier="thorough", what="VEL routing"),
+            dict(name="drd_route_sw", witness=True, bounded="1 block, gates<=2, word 8/16", tier="thorough", what="SW routing"),
+            dict(name="drd_route_zdr", witness=True, bounded="1 block, gates<=2, word 8/16", tier="thorough", what="ZDR routing"),
+            dict(name="drd_route_phi", witness=True, bounded="1 block, gates<=2, word 8/16", tier="thorough", what="PHI routing"),
+            dict(name="drd_route_rho", witness=True, bounded="1 block, gates<=2, word 8/16", tier="thorough", what="RHO routing"),
+            dict(name="drd_route_cfp", witness=True, bounded="1 block, gates<=2, word 8/16", tier="thorough", what="CFP routing"),
+            dict(name="drd_two_blocks_permuted_gap", witness=True, bounded="2 blocks, permuted pointers, 4-byte gap", tier="thorough", what="pointer order != layout order, gap between blocks"),
         ])],
         trusted_base=STD_TRUST + KANI_TRUST + [
             "in-harness Read+Seek slice reader stands for Cursor<&[u8]> (decoder uses only the Read/Seek contract)",
@@ -294,19 +294,19 @@ CHECKS = {
             prefix_h([n for n in DECODE_STRUCTS if n not in ("RdaStatus", "VolumeDataBlock", "VcpElevation")]) +
             prefix_h(["RdaStatus", "VolumeDataBlock", "VcpElevation"], tier="thorough") + [
             dict(name="c08_get_datetime_total", what="date conversion total on all u16 x u32 / u16 x u16"),
-            dict(name="drd_q_unknown_name_0", bounded="1 block, name byte 0 symbolic", tier="thorough", what="unknown block name: value or error, never a panic; radial conversion total"),
-            dict(name="drd_q_unknown_name_1", bounded="1 block, name byte 1 symbolic", tier="thorough", what="same, name byte 1"),
-            dict(name="drd_q_unknown_name_2", bounded="1 block, name byte 2 symbolic", tier="thorough", what="same, name byte 2"),
-            dict(name="drd_q_pointer_any", bounded="1 block, pointer any u32, 80-byte message", tier="thorough", what="backwards / overlapping / out-of-range pointer: value or error"),
-            dict(name="drd_q_truncated_a", bounded="cuts at 0, 31, 32 of a 48-byte message", termination="unwind 5; the unchanged decoder needs <= 3 iterations per loop", what="truncated type-31 message is an error and decoding ends"),
-            dict(name="drd_q_truncated_b", bounded="cuts at 35, 36, 39", termination="unwind 5", what="same"),
-            dict(name="drd_q_truncated_c", bounded="cuts at 40, 47, 1", termination="unwind 5", what="same"),
-            dict(name="drd_q_gates_short", bounded="gates in {5, 1840, 65535} x word 8/16, 4 data bytes present", tier="thorough", termination="unwind 5", what="declared gate bytes beyond the input: error, never a hang or a panic"),
-            dict(name="drd_total_count_extreme", bounded="block count 65535, 40-byte input", what="huge block count with short input is an error"),
-            dict(name="drd_total_name_byte0", bounded="<=2 blocks, 80-byte fully symbolic buffer, one symbolic name byte", tier="thorough", what="type-31 decode + radial conversion: value or error"),
-            dict(name="drd_total_name_xyz", bounded="<=2 blocks, 80-byte fully symbolic buffer, name XYZ", tier="thorough", what="unknown block name is an error"),
-            dict(name="drd_total_truncated", bounded="every prefix of a 48-byte one-block message, contents symbolic", tier="thorough", termination="unwind 50", what="truncated type-31 message is an error"),
-            dict(name="drd_total_gates_short", bounded="gates fully symbolic, 4 data bytes present", tier="thorough", termination="unwind 8", what="declared gate bytes beyond the input: error"),
+            dict(name="drd_q_unknown_name_0", witness=True, bounded="1 block, name byte 0 symbolic", tier="thorough", what="unknown block name: value or error, never a panic; radial conversion total"),
+            dict(name="drd_q_unknown_name_1", witness=True, bounded="1 block, name byte 1 symbolic", tier="thorough", what="same, name byte 1"),
+            dict(name="drd_q_unknown_name_2", witness=True, bounded="1 block, name byte 2 symbolic", tier="thorough", what="same, name byte 2"),
+            dict(name="drd_q_pointer_any", witness=True, bounded="1 block, pointer any u32, 80-byte message", tier="thorough", what="backwards / overlapping / out-of-range pointer: value or error"),
+            dict(name="drd_q_truncated_a", witness=True, bounded="cuts at 0, 31, 32 of a 48-byte message", termination="unwind 5; the unchanged decoder needs <= 3 iterations per loop", what="truncated type-31 message is an error and decoding ends"),
+            dict(name="drd_q_truncated_b", witness=True, bounded="cuts at 35, 36, 39", termination="unwind 5", what="same"),
+            dict(name="drd_q_truncated_c", witness=True, bounded="cuts at 40, 47, 1", termination="unwind 5", what="same"),
+            dict(name="drd_q_gates_short", witness=True, bounded="gates in {5, 1840, 65535} x word 8/16, 4 data bytes present", tier="thorough", termination="unwind 5", what="declared gate bytes beyond the input: error, never a hang or a panic"),
+            dict(name="drd_total_count_extreme", witness=True, bounded="block count 65535, 40-byte input", what="huge block count with short input is an error"),
+            dict(name="drd_total_name_byte0", witness=True, bounded="<=2 blocks, 80-byte fully symbolic buffer, one symbolic name byte", tier="thorough", what="type-31 decode + radial conversion: value or error"),
+            dict(name="drd_total_name_xyz", witness=True, bounded="<=2 blocks, 80-byte fully symbolic buffer, name XYZ", tier="thorough", what="unknown block name is an error"),
+            dict(name="drd_total_truncated", witness=True, bounded="every prefix of a 48-byte one-block message, contents symbolic", tier="thorough", termination="unwind 50", what="truncated type-31 message is an error"),
+            dict(name="drd_total_gates_short", witness=True, bounded="gates fully symbolic, 4 data bytes present", tier="thorough", termination="unwind 8", what="declared gate bytes beyond the input: error"),
         ])],
         trusted_base=STD_TRUST + KANI_TRUST + ["reader model (std::io)", "in-harness slice reader for the seeking decoder"],
         not_decided=["peak-memory clause: allocation sizes are functions of 8/16-bit fields (proved for the gate buffer: "
